@@ -481,3 +481,48 @@ def rf42b(run):
                       '%s stores interpreter code addresses into the lref data cells that generated code reads (written by %s): after '
                       '"generate f; call it; interpret f" the generated code jumps through the table to interpreter addresses'
                       % (f.name, ', '.join(sorted(g.name for u, g, y in engines.get('generator', [])))), line=x['l'])
+
+
+# ---------------------------------------------------------------------------------------------
+# RF89: interpreter label addresses and label differences use one unit
+# ---------------------------------------------------------------------------------------------
+
+def rf89(run):
+    from lib import printexec as PE
+    rule = 'RF89'
+    run.rule(rule, 'generate_icode fills lref data either with a label address `(char *) (code + index) + disp` or with a label difference.  '
+                   'Addresses advance by sizeof (code element) per index, so the stored difference of two labels whose indices differ by '
+                   'one, with disp 0, must evaluate to that element size: `laddr base, la; add base, base, <lb - la>; jmpi base` has to '
+                   'reach lb in the interpreter as in generated code')
+    tu = run.tu('mir')
+    f = tu.func('generate_icode')
+    run.functions_analysed.add(('mir', f.name))
+    stores = [x for x in f.walk() if x['k'] == 'BinaryOperator' and x['op'] == '=' and 'load_addr' in F.src(x['c'][0]) and 'label2' in F.src(x['c'][1])]
+    if len(stores) != 1:
+        raise F.AnalysisBroken('generate_icode: store of the label difference not found')
+    st = stores[0]
+    # element size of the code array: the type of func_desc->code elements
+    esz = None
+    for x in f.walk():
+        if x['k'] == 'MemberExpr' and x['n'] == 'code' and F.src(F.strip(x['c'][0])).endswith('func_desc'):
+            t = tu.type(x)
+            if t is not None and t.elem is not None:
+                et = tu.type(t.elem)
+                esz = (et.w // 8) if et is not None and et.w else None
+            elif t is not None and t.pointee is not None:
+                et = tu.type(t.pointee)
+                esz = (et.w // 8) if et is not None and et.w else None
+            if esz:
+                break
+    if not esz:
+        raise F.AnalysisBroken('generate_icode: element size of the interpreter code not determined')
+    ev = PE.HeapEnv(tu, {})
+    env = {'lref->label->data': 1, 'lref->label2->data': 0, 'lref->disp': 0}
+    v = ev.eval(st['c'][1], env, frozenset())
+    ok = v == esz
+    run.ob(rule, ('unit',), ok, {'stored difference for adjacent indices': v, 'address step per index (element size)': esz, 'expression': F.src(st['c'][1])[:100]})
+    if not ok:
+        run.violation(rule, f, 'unit of the label difference', 'for two labels one code element apart the interpreter stores the difference %s, but label '
+                      'addresses (laddr, lref with one label) differ by %d bytes: an address computed as base label + stored difference does not '
+                      'reach the second label under the interpreter' % (v, esz), line=st['l'])
+    return 1
